@@ -3,6 +3,7 @@ import NutsModel.C18.Policy
 import NutsModel.C18.Cache
 import NutsModel.C18.RCache
 import NutsModel.C18.LocalStore
+import NutsModel.C18.DidKey
 open Lean Nuts.Drv Nuts.C18 Nuts
 
 namespace Nuts.Drv.C18
@@ -151,12 +152,16 @@ def step (st : St) (j : Json) : St × List String :=
       -- the node's table: the versions of this DID and of its case-variant siblings (`sib`); the lookup is `sqlLatest`
       let sibRows := (jArr j "sib").flatMap fun sj => rowsOf (unhx (jStr sj "did")) ((jStrs sj "hist").map (fun v => v != "deactivated" && v != "deactivated+"))
       let rows := sibRows ++ rowsOf d.str hist
-      let node : Node := { didMethods := st.methods, localState := fun x => if jBool j "fault" then .dbError else sqlLocalState rows 0 x, keyDecodes := fun _ => jBool j "keyok",
+      -- did:key: the refusal site is computed from the identifier (codec table regenerated from the switch of didkey.Resolve)
+      let keyClass := (resolveKeyClass Nuts.Facts.C18.didKeyTable d.id (if jHas j "mc" then some (unhx (jStr j "mc")) else none)
+                        { ecOK := jBool j "ecok", rsa := jStr j "rsa" }).str
+      let node : Node := { didMethods := st.methods, localState := fun x => if jBool j "fault" then .dbError else sqlLocalState rows 0 x,
+                           keyDecodes := fun x => if x.method = sKey then keyClass == "ok" else jBool j "keyok",
                            nutsState := fun _ => nutsStateOf' hist orphanedLast }
       let (reqs, out) := resolve dec cts factPolicy factLocalFirst st.strict node (jBool j "allow") d srv
       let o := match out with
         | .ok r => s!"ok:{hx r.docID}:{r.deactivated}"
-        | .err e => if e.startsWith "d2u:" then "err:d2u" else "err:" ++ e
+        | .err e => if e.startsWith "d2u:" then "err:d2u" else if e == "invalid-key" && d.method == sKey then "err:invalid-key:" ++ keyClass else "err:" ++ e
         | .panic p => "panic:" ++ p
       s!"resolve reqs={reqs.length} out={o}"
     | "hc" => "hc " ++ String.intercalate ";" (hcSteps (RCache.new (jInt j "max")) (jArr j "steps") [])
